@@ -9,6 +9,7 @@ CONSTANTS
   MaxKids = 3
   MaxChunks = 1
   MinMaxPropagation = TRUE
+  StreamsAwaited = TRUE
 INVARIANT TypeOK
 INVARIANT PointerIsScope
 INVARIANT SpanStart
